@@ -46,7 +46,7 @@ PPL::Grid::Grid(const Grid& y, Complexity_Class)
     gen_sys = y.gen_sys;
   }
   else {
-    if (y.congruences_are_up_to_date()) {
+    if (y.congruences_are_up_to_date() || y.marked_empty()) {
       con_sys = y.con_sys;
     }
     else {
